@@ -84,7 +84,7 @@ func stimulusText(v *psVector) string {
 		}
 		sb.WriteString("] ")
 	}
-	if v.Op != "" {
+	if v.Op != "" && len(v.Prog) == 0 {
 		sb.WriteString(v.Op)
 	} else {
 		calls, err := psbind.Calls(v.Prog)
@@ -155,6 +155,8 @@ func opSig(v *psVector, kind string) string {
 }
 
 // checkVector replays one vector; returns nil or a disagreement.
+var crashOnly bool
+
 func checkVector(base *psBase, v *psVector, line int) *disagreement {
 	mk := func(kind, what, exp, obs string) *disagreement {
 		return &disagreement{Sig: opSig(v, kind), What: what, Stimulus: stimulusText(v), Expected: exp, Observed: obs, Line: line}
@@ -184,7 +186,7 @@ func checkVector(base *psBase, v *psVector, line int) *disagreement {
 		b.Intp.Stack = append(b.Intp.Stack, o)
 	}
 	var calls []string
-	if v.Op != "" {
+	if v.Op != "" && len(v.Prog) == 0 {
 		calls = []string{v.Op}
 	} else {
 		calls, err = psbind.Calls(v.Prog)
@@ -199,6 +201,10 @@ func checkVector(base *psBase, v *psVector, line int) *disagreement {
 		maxops = safetyBudget
 	}
 	out := b.Run(calls, maxops)
+	if crashOnly {
+		// C01: any normal return (result or error value) is fine
+		return nil
+	}
 	if v.MaxOps == 0 && psbind.ErrName(out.Err) == "budget" {
 		return mk("diverges", fmt.Sprintf("the library is still running after %d operations where the reference terminates", safetyBudget), v.Status+" "+strings.Join(v.Errs, "|"), "no termination within the safety budget")
 	}
@@ -245,6 +251,7 @@ func replayPS(args []string) error {
 	fs := flag.NewFlagSet("replay-ps", flag.ContinueOnError)
 	basePath := fs.String("base", "psbase.json", "base heap written by the specification")
 	maxReport := fs.Int("max-report", 400, "maximum number of disagreements reported in detail")
+	fs.BoolVar(&crashOnly, "crash-only", false, "only panics count (C01)")
 	if err := fs.Parse(args); err != nil {
 		return err
 	}
